@@ -193,7 +193,7 @@ func (g *valGen) val(t *rapid.T, typ reflect.Type, depth int) GoVal {
 	case reflect.Float64:
 		return GoVal{F: gen.Float64Bits(t, g.cfg.Finite, "vf64")}
 	case reflect.Ptr:
-		if depth > 6 || g.budget <= 0 || rapid.IntRange(0, 3).Draw(t, "vnilp") == 0 {
+		if depth > 8 || g.budget <= 0 || rapid.IntRange(0, 3).Draw(t, "vnilp") == 0 {
 			return GoVal{Nil: true}
 		}
 		v := g.val(t, typ.Elem(), depth+1)
